@@ -215,6 +215,9 @@ func L4(r *vlib.Rand, kind int, sport, dport uint16, defects bool) []byte {
 					}
 					i += l
 				} else {
+					if !defects {
+						o[i] = 1 // no room for a length byte: NOP instead
+					}
 					i++
 				}
 			}
